@@ -235,6 +235,19 @@ impl RealState {
             }
             ["dm", "fast"] => (crate::c08::real_dm(&self.tree, false).0, Some(format!("dm\tfast\t{UNIT}"))),
             ["dm", "rec"] => (crate::c08::real_dm(&self.tree, true).0, Some("dm\trec".into())),
+            ["up.run", taxa, cells] => {
+                let names: Vec<String> = if *taxa == "_" { vec![] } else { taxa.split(',').filter_map(unhex).collect() };
+                let vals: Vec<f64> = if *cells == "_" { vec![] } else { cells.split(' ').filter_map(|x| x.parse::<f64>().ok()).collect() };
+                let m = phylotree::distance::DistanceMatrix::new(names, &vals);
+                match m.upgma() {
+                    Ok(t) => {
+                        let ans = format!("ok {}", t.to_newick().unwrap_or_default());
+                        self.tree = t;
+                        (ans, None)
+                    }
+                    Err(e) => (format!("err {e:?}"), None),
+                }
+            }
             ["real.reset_cache"] => {
                 self.tree.reset_bipartition_cache();
                 ("ok".into(), Some("nop".into()))
